@@ -1245,6 +1245,28 @@ int EGLPNUM_TYPENAME_ILLlib_addrow (
 	qslp = lp->O;
 	A = &qslp->A;
 
+	if (sense != 'L' && sense != 'G' && sense != 'E' && sense != 'R')
+	{
+		QSlog("illegal sense %c for new row", sense);
+		rval = 1;
+		ILL_CLEANUP;
+	}
+	for (i = 0; i < cnt; i++)
+	{
+		if (ind[i] < 0 || ind[i] >= qslp->nstruct)
+		{
+			QSlog("column index %d out of range in new row", ind[i]);
+			rval = 1;
+			ILL_CLEANUP;
+		}
+	}
+	if (name && ILLsymboltab_contains (&qslp->rowtab, name))
+	{
+		QSlog("row name %s is already in use", name);
+		rval = 1;
+		ILL_CLEANUP;
+	}
+
 	if (qslp->rA)
 	{															/* After an addrow call, needs to be updated */
 		EGLPNUM_TYPENAME_ILLlp_rows_clear (qslp->rA);
